@@ -114,6 +114,18 @@ Proof.
   split; [rewrite frame_header by lia; now rewrite frame_length|].
   rewrite <- (frame_length (encode e sid v)). apply parse_frame; lia.
 Qed.
+(* InvokeTimeout: below four bytes the slice panic, otherwise never that panic; a reply, when the request decodes,
+   is a packet that ParsePackage accepts at exactly its length *)
+Theorem invoke_timeout_short pkg : (length pkg < 4)%nat ->
+  invoke_timeout e req_sid rsp_sid tup_version pkg = DPanic site_slice_bounds.
+Proof. intros H. unfold invoke_timeout, request_unpack, unpack. destruct (length pkg <? 4)%nat eqn:E; [reflexivity|lia]. Qed.
+Theorem invoke_timeout_reply max pkg reply r more : invoke_timeout e req_sid rsp_sid tup_version pkg = DOk reply r ->
+  N.of_nat (length reply) < 4294967296 -> N.of_nat (length reply) <= max ->
+  hdr (reply ++ more) = Some (N.of_nat (length reply)) /\ tars_request max (reply ++ more) = Full (length reply).
+Proof.
+  unfold invoke_timeout. destruct (request_unpack e req_sid pkg) as [req r0| | | |]; try discriminate.
+  intros H; inversion H; subst. apply rsp2byte_parses.
+Qed.
 End Packets.
 
 (* the unguarded statement "ResponseUnpack never panics on any bytes" is false of the faithful model *)
@@ -136,6 +148,13 @@ Proof. vm_compute. reflexivity. Qed.
 Example rsp2byte_tup_ex :
   request_unpack env0 sid_requestf_RequestPacket (rsp2byte env0 sid_requestf_RequestPacket sid_requestf_ResponsePacket c_TUPVERSION (ex_rsp c_TUPVERSION))
   = DOk (VStruct [VInt c_TUPVERSION; VInt 0; VInt 0; VInt 7; VStr []; VStr []; VBytes [1; 2; 255]; VInt 0; VMap []; VMap [(VStr [107], VStr [118])]]) [].
+Proof. vm_compute. reflexivity. Qed.
+Example invoke_timeout_ex :
+  invoke_timeout env0 sid_requestf_RequestPacket sid_requestf_ResponsePacket c_TUPVERSION
+    (request_pack env0 sid_requestf_RequestPacket
+       (VStruct [VInt 1; VInt 0; VInt 0; VInt 77; VStr [111]; VStr [102]; VBytes [5]; VInt 0; VMap []; VMap []]))
+  = DOk (rsp2byte env0 sid_requestf_RequestPacket sid_requestf_ResponsePacket c_TUPVERSION
+           (VStruct [VInt 1; VInt 0; VInt 77; VInt 0; VInt 1; VBytes []; VMap []; VStr (raw "server invoke timeout"%hex); VMap []])) [].
 Proof. vm_compute. reflexivity. Qed.
 Example parse_ex : tars_request c_maxPackageLength (rsp2byte env0 sid_requestf_RequestPacket sid_requestf_ResponsePacket c_TUPVERSION (ex_rsp 1) ++ [9; 9])
   = Full (length (rsp2byte env0 sid_requestf_RequestPacket sid_requestf_ResponsePacket c_TUPVERSION (ex_rsp 1))).
